@@ -146,7 +146,8 @@ JudgeE2E(r) ==
       /\ Flag(\A c \in ConsOf(r.obs) : c.upd = 0 /\ c.ok /\ (c.sys = "alphabet" \/ c.dep = 0), "DRIFT", "FreshContracts", r, t)
       /\ IF r.act = "end"
          THEN IF r.done
-              THEN /\ Flag(RolesExactF(r), "C13", "RolesExact", r, t)
+              THEN IF r.goal # "all" THEN TRUE ELSE      \* a run that stops at the Notary role has no final state to judge
+                   /\ Flag(RolesExactF(r), "C13", "RolesExact", r, t)
                    /\ Flag(NNSIdOne(r), "C13", "NNSIdOne", r, t)
                    /\ Flag(AllResolve(r), "C13", "AllResolve", r, t)
                    /\ Flag(AlphabetPerMember(r), "C13", "AlphabetPerMember", r, t)
